@@ -382,6 +382,16 @@ fn one_placement(c: &Case, k: u32, at_stop: Option<u32>, ctx: &mut Ctx) -> Optio
         }
     };
     ctx.count(&format!("reach.probe.{}", cmd.split(' ').next().unwrap_or("")));
+    // a host break can also arrive while the interpreter is idle (the CLI polls its CTRL-C channel after every
+    // turn of its loop, whatever the state): after the edit there is nothing it could make resumable
+    if matches!(c.probe, ProbeCmd::Cont) && !matches!(c.edit, Edit::Failed(_)) && s.state() == St::Idle && c.prog.order_seed % 3 == 1 {
+        if let Err(p) = crate::sess::guarded(|| s.it.break_at_current_location()) {
+            return v("panic", format!("panic@{p}"), format!("host break while idle after edit `{text}` unwound: {p}"));
+        }
+        let _ = crate::sess::guarded(|| s.it.take_output());
+        ctx.calls(1);
+        ctx.count("fault.idle_break_between_edit_and_CONT");
+    }
     let calls = s.line_and_settle(&cmd, 300);
     ctx.calls(calls.len() as u64);
     for cl in &calls {
@@ -431,7 +441,7 @@ impl Prop for C11 {
     fn meta() -> Meta {
         Meta {
             level: "fault_enumeration",
-            rule: "Programs from the C03 grammar with GOSUB, FOR, DATA, DEF forced on (plus INPUT/STOP). The run is suspended (break at boundary k while running or awaiting input, at a STOP, after completion, after a failure), optionally an immediate statement that opens state from the prompt (FOR, nested FORs, READ), then ONE edit (sometimes followed by 1-4 or 255 / 256 / 257 / 511 / 512 / 65535 / 65536 further edits of a scratch line; sometimes the program is a single line that is deleted) (add a new line, replace an existing line incl. the ones holding the breakpoint / FOR / GOSUB return point / DATA / DEF, delete a line, or a rejected edit whose text cannot tokenize) and ONE probe (CONT, RETURN, NEXT v, PRINT FNW(3), READ Q$ : PRINT Q$, GOTO n surviving/deleted, PRINT v). Mode EveryBoundary (always in thorough, 1 in 5 in quick) places the suspension at EVERY boundary of the run in turn. Oracle after a successful edit: probe snapshot has no breakpoint/frames/loops/functions/data cursor while variables and arrays (content hash) are unchanged, and the probe command answers CAN'T CONTINUE / RETURN WITHOUT GOSUB / NEXT WITHOUT FOR / array default 0 / first DATA item of the edited program / UNDEF'D STATEMENT. After a rejected edit: snapshot identical and break+rejected edit+CONT continues exactly like the uninterrupted run. distinct_nontrivial = distinct (program, boundary, edit, probe) hashes among placements where the snapshot before the edit held at least one of frame/loop/data cursor/function/breakpoint.",
+            rule: "Programs from the C03 grammar with GOSUB, FOR, DATA, DEF forced on (plus INPUT/STOP). The run is suspended (break at boundary k while running or awaiting input, at a STOP, after completion, after a failure), optionally an immediate statement that opens state from the prompt (FOR, nested FORs, READ), then ONE edit (sometimes followed by 1-4 or 255 / 256 / 257 / 511 / 512 / 65535 / 65536 further edits of a scratch line; sometimes the program is a single line that is deleted) (add a new line, replace an existing line incl. the ones holding the breakpoint / FOR / GOSUB return point / DATA / DEF, delete a line, or a rejected edit whose text cannot tokenize) and ONE probe (CONT — one time in three preceded by a host break that arrives while the interpreter is idle, as the CLI's CTRL-C channel can deliver it —, RETURN, NEXT v, PRINT FNW(3), READ Q$ : PRINT Q$, GOTO n surviving/deleted, PRINT v). Mode EveryBoundary (always in thorough, 1 in 5 in quick) places the suspension at EVERY boundary of the run in turn. Oracle after a successful edit: probe snapshot has no breakpoint/frames/loops/functions/data cursor while variables and arrays (content hash) are unchanged, and the probe command answers CAN'T CONTINUE / RETURN WITHOUT GOSUB / NEXT WITHOUT FOR / array default 0 / first DATA item of the edited program / UNDEF'D STATEMENT. After a rejected edit: snapshot identical and break+rejected edit+CONT continues exactly like the uninterrupted run. distinct_nontrivial = distinct (program, boundary, edit, probe) hashes among placements where the snapshot before the edit held at least one of frame/loop/data cursor/function/breakpoint.",
             real: &["abasic-core Interpreter (set_numbered_line and its five resets, CONT/RETURN/NEXT/READ/function lookup paths)"],
             stub: &["the host (suspension point, edit, probe)"],
             assumptions: &["edits that change nothing (deleting an absent line, re-entering identical text) are not generated: the statement is silent about them"],
@@ -448,6 +458,7 @@ impl Prop for C11 {
                 "fault.edit@failed",
                 "fault.failed_edit",
                 "fault.delete_line",
+                "fault.idle_break_between_edit_and_CONT",
             ],
         }
     }
